@@ -213,6 +213,7 @@ class SimNet:
         self.connect_policy: Callable[[FakeSocket, Any], tuple[Any, ...]] = lambda sock, addr: ("refuse", 0.0)
         self.dns: dict[str, Any] = {}
         self.dns_calls: list[tuple[float, str, int]] = []
+        self.dns_seqs: list[int] = []
         self.sockopt_fault: Any = None
         self.socket_create_fault: Any = None
         self.connect_attempts: list[dict[str, Any]] = []
@@ -287,6 +288,7 @@ class SimNet:
     async def getaddrinfo(self, host: str, port: int, *, family: int = 0, type: int = 0, proto: int = 0,  # noqa: A002
                           flags: int = 0) -> list[Any]:
         self.dns_calls.append((self.sim.clock, host, port))
+        self.dns_seqs.append(self.sim.next_seq())
         self.sim.log("dns", host)
         ans = self.dns.get(host, self.dns.get("*", real_socket.gaierror(real_socket.EAI_NONAME, "Name or service not known")))
         delay = 0.0
@@ -304,8 +306,11 @@ class SimNet:
             raise ans
         out = []
         for ip in ans:
-            if ":" in ip:
-                out.append((real_socket.AF_INET6, real_socket.SOCK_STREAM, real_socket.IPPROTO_TCP, "", (ip, port, 0, 0)))
+            if isinstance(ip, tuple):  # raw getaddrinfo entry (e.g. an unknown address family)
+                out.append(ip)
+            elif ":" in ip:
+                ip6, _, scope = ip.partition("%")
+                out.append((real_socket.AF_INET6, real_socket.SOCK_STREAM, real_socket.IPPROTO_TCP, "", (ip6, port, 0, int(scope or 0))))
             else:
                 out.append((real_socket.AF_INET, real_socket.SOCK_STREAM, real_socket.IPPROTO_TCP, "", (ip, port)))
         return out
@@ -337,7 +342,8 @@ class FakeSelector(selectors._BaseSelectorImpl):  # noqa: SLF001
         net = sim.net
         net.apply_due()
         ready = self._ready()
-        if ready or (timeout is not None and timeout <= 0):
+        if ready or (timeout is not None and timeout <= 0) or sim.loop._ready:  # noqa: SLF001
+            # (a simulated event due right now may have queued a callback: no virtual time may pass before it runs)
             return ready
         nxt = net.next_time()
         if timeout is None and nxt is None:
